@@ -71,11 +71,17 @@ def materialise(case, d):
                 m_args += ["-m", name, ".".join(spec["lookup"] + ["part%d" % fi]), fname]
                 per_model.setdefault("m", []).append((name, "m", [f["samples"] if f["as_list"] else [f["samples"][0]]]))
             continue
+        shape = spec.get("glob_shape", "flat") if spec["via"] == "glob" else None
         for fi, f in enumerate(spec["files"]):
             sub = ("g%d" % n) if spec["via"] == "glob" else ""
+            if shape == "deep":
+                sub = os.path.join(sub, "part%d" % fi)       # g<n>/*/data.json: a literal component after the wildcard
             if sub:
                 os.makedirs(os.path.join(d, sub), exist_ok=True)
-            fname = os.path.join(sub, "f%d_%d%s" % (n, fi, ext)) if sub else "f%d%s" % (n, ext)
+            if shape == "deep":
+                fname = os.path.join(sub, "data" + ext)
+            else:
+                fname = os.path.join(sub, "f%d_%d%s" % (n, fi, ext)) if sub else "f%d%s" % (n, ext)
             payload = f["samples"] if f["as_list"] else f["samples"][0]
             doc = wrap(payload, spec["lookup"])
             with open(os.path.join(d, fname), "w", encoding="utf-8") as fp:
@@ -90,7 +96,10 @@ def materialise(case, d):
         elif spec["via"] == "l":
             l_args += ["-l", name, lookup, files[0][0]]
         else:
-            m_args += ["-m", name] + ([lookup] if spec["lookup"] else []) + [os.path.join(os.path.dirname(files[0][0]), "*" + ext)]
+            gdir = "g%d" % n
+            pattern = {"flat": os.path.join(gdir, "*" + ext), "deep": os.path.join(gdir, "*", "data" + ext),
+                       "question": os.path.join(gdir, "f%d_?%s" % (n, ext)), "recursive": os.path.join(gdir, "**", "*" + ext)}[shape]
+            m_args += ["-m", name] + ([lookup] if spec["lookup"] else []) + [pattern]
         per_model.setdefault(("l" if spec["via"] == "l" else "m"), []).append((name, spec["via"], [s for _, s in files]))
     # documented order is argument order; the harness only ever puts -l after -m (known finding legacy-list-order),
     # except for the finding's own reproducer, which sets legacy_first
@@ -191,16 +200,25 @@ def global_registry_restored():
         registry.replaces.update(replaces)
 
 
-def run_in_process(argv, cwd):
+def run_in_process(argv, cwd, prior_argv=None, run_twice=False):
+    """one conversion through a Cli object; optionally the object has already served another conversion (prior_argv), or
+    run() is called a second time and that second result is returned"""
     from json_to_models.cli import Cli
     old_argv, old_cwd = sys.argv, os.getcwd()
-    sys.argv = ["json2models"] + list(argv)
     os.chdir(cwd)
     try:
         with global_registry_restored(), contextlib.redirect_stderr(io.StringIO()):
             cli = Cli()
+            if prior_argv is not None:
+                sys.argv = ["json2models"] + list(prior_argv)
+                cli.parse_args(list(prior_argv))
+                cli.run()
+            sys.argv = ["json2models"] + list(argv)
             cli.parse_args(list(argv))
-            return cli.run()
+            out = cli.run()
+            if run_twice:
+                out = cli.run()
+            return out
     finally:
         sys.argv = old_argv
         os.chdir(old_cwd)
@@ -256,7 +274,9 @@ def check_with(case, driver):
         # actual
         if driver == "inproc":
             try:
-                out = run_in_process(argv, d)
+                if case.get("run_twice"):
+                    r.label("run-called-twice")
+                out = run_in_process(argv, d, run_twice=bool(case.get("run_twice")))
                 rc, stdout = 0, out
             except SystemExit as e:
                 rc, stdout = (e.code or 0), ""
@@ -359,7 +379,10 @@ def cases(draw, tier="quick", formats=("json", "json", "json", "yaml", "ini")):
                 smp = draw(gen.sample_lists(universe, max_samples=3, max_leaves=6))
                 as_list = draw(st.booleans()) or len(smp) != 1
                 files.append({"as_list": as_list, "samples": smp})
-            specs.append({"model": name, "via": via, "lookup": lookup, "files": files})
+            spec = {"model": name, "via": via, "lookup": lookup, "files": files}
+            if via == "glob":
+                spec["glob_shape"] = draw(st.sampled_from(["flat", "flat", "deep", "question", "recursive"]))
+            specs.append(spec)
     # keep the number of admissible glob orderings small enough to enumerate (<= 36)
     budget = 36
     for sp in specs:
@@ -376,8 +399,18 @@ def cases(draw, tier="quick", formats=("json", "json", "json", "yaml", "ini")):
     o["disabled"] = draw(st.sampled_from([[], [], [], ["int"], ["float", "bool"], ["IsoDateString"], ["date", "time"]]))
     if o["nested"] and len(names) > 1:
         o["nested"] = draw(st.booleans())
+    if fmt != "ini" and draw(st.integers(0, 5)) == 0:
+        # two sibling objects whose shared / total key ratio is exactly N percent, with --merge percent_N (parsing of N matters)
+        shared, total = draw(st.sampled_from([(7, 10), (19, 20), (7, 20), (1, 2), (3, 4), (41, 50), (47, 50), (57, 100)]))
+        a_only = (total - shared) // 2
+        ks = ["k%02d" % i for i in range(total)]
+        o1 = {k: 1 for k in ks[:shared + a_only]}
+        o2 = {k: 1 for k in ks[:shared] + ks[shared + a_only:]}
+        specs[0]["files"][0] = {"as_list": True, "samples": [{"first": o1, "second": o2}]}
+        o["merge"] = [["percent", 100 * shared / total if (100 * shared) % total else 100 * shared // total]]
+        o["dkr"], o["dkf"] = [], []
     return {"specs": specs, "opts": o, "format": fmt, "output": draw(st.sampled_from([False, False, True])),
-            "c_locale": draw(st.booleans())}
+            "c_locale": draw(st.booleans()), "run_twice": draw(st.sampled_from([False, False, True]))}
 
 
 def valid(case):
@@ -402,6 +435,8 @@ def valid(case):
             if s["via"] not in ("m", "l", "glob", "same-file") or not s["files"] or not s["model"].isidentifier():
                 return False
             if s["via"] in ("m", "l") and len(s["files"]) != 1:
+                return False
+            if s.get("glob_shape", "flat") not in ("flat", "deep", "question", "recursive"):
                 return False
             if s["via"] == "same-file" and case["format"] == "ini":
                 return False
